@@ -14,12 +14,27 @@ def funcs : List (String × String) := [
   ("internal/auth/pass_table/hash.go:verifyBcrypt", "9f8691fab49265a8"),
   ("internal/auth/pass_table/hash.go:verifySHA256", "3891d0d9cfbcfe30"),
   ("internal/auth/pass_table/table.go:Auth.AuthPlain", "8fbe2115c41f6f60"),
+  ("internal/auth/pass_table/table.go:Auth.CreateUser", "14fb36ebde42b542"),
   ("internal/auth/pass_table/table.go:Auth.CreateUserHash", "bab1165f36564db1"),
   ("internal/auth/pass_table/table.go:Auth.DeleteUser", "07d434bdccc5657b"),
+  ("internal/auth/pass_table/table.go:Auth.Init", "bcdba0ee9f1d8cbf"),
+  ("internal/auth/pass_table/table.go:Auth.InstanceName", "371f57b19113e3b1"),
+  ("internal/auth/pass_table/table.go:Auth.ListUsers", "ac3a4eab7f306ef8"),
+  ("internal/auth/pass_table/table.go:Auth.Lookup", "89f8e29f2818a1f0"),
+  ("internal/auth/pass_table/table.go:Auth.Name", "3dd65e269e4052e9"),
   ("internal/auth/pass_table/table.go:Auth.SetUserPassword", "5d466c6dec80fcac"),
+  ("internal/auth/pass_table/table.go:New", "d5b677a9a7a0e7cb"),
+  ("internal/auth/pass_table/table.go:init", "df6f3b164fc646a6"),
+  ("internal/auth/pass_table/table.go:type Auth", "915f51b29ac25be7"),
+  ("internal/auth/sasl.go:FailingSASLServ.Next", "4b3808d36b47ca21"),
+  ("internal/auth/sasl.go:SASLAuth.AddProvider", "48a30020af532331"),
   ("internal/auth/sasl.go:SASLAuth.AuthPlain", "a357cae13a5495fc"),
   ("internal/auth/sasl.go:SASLAuth.CreateSASL", "f2cba99bbf118ea3"),
+  ("internal/auth/sasl.go:SASLAuth.SASLMechanisms", "b0cb730e7491c0ea"),
   ("internal/auth/sasl.go:SASLAuth.usernameForAuth", "845d8894d1389ba6"),
+  ("internal/auth/sasl.go:type ContextData", "a22731aafc810e64"),
+  ("internal/auth/sasl.go:type FailingSASLServ", "8c954f3764e69b1c"),
+  ("internal/auth/sasl.go:type SASLAuth", "edf129f67ae0716b"),
   ("internal/endpoint/smtp/session.go:Session.Auth", "824172581d721d4f"),
   ("internal/endpoint/smtp/session.go:Session.AuthPlain", "ee043220ec359376"),
   ("internal/endpoint/smtp/session.go:Session.Mail", "23b0bf968b797f19")
